@@ -3,7 +3,7 @@
    and error value" = for every list of events of the model of Promise/Model.v (any number of promises and
    calls; every placement of the Swap, the field writes, wake-ups, cancellations, channel sends, container
    sections; values are arbitrary N, errors nil / context.Canceled / context.DeadlineExceeded / other i). *)
-From Util Require Import Common.Base Common.ListLemmas Promise.Model Promise.Spec Promise.Proofs.
+From Util Require Import Common.Base Common.ListLemmas Promise.Model Promise.Spec Promise.Proofs Promise.ProofsMon Promise.ProofsMon2.
 
 (* Exactly the first SetResult returns true.  [won p] = SetResult calls on p that won the Swap (parked before
    the writes, or returned true): there is exactly one once isDone is set, none for a promise constructed
@@ -136,7 +136,8 @@ Theorem c11_pinned_refuted :
 Proof. exists d11_events, 0. exact pinned_refuted_g. Qed.
 Print Assumptions c11_pinned_refuted.
 
-(* BOUNDED tie between the monitors and the model (the unbounded model_satisfies_monitors is NOT proved).
+(* BOUNDED tie between the monitors and the model (kept; the UNBOUNDED theorems c11_model_satisfies_monitors ...
+   c11_clause7_only_in_d21 follow below).
    By computation in the kernel (vm_compute): for EVERY sequence of at most 5 events (config [0]; at most 4 with exit
    gates, config [1]) from the candidate alphabet Proofs.cands (NewPromise, container SetResult(3, Canceled),
    SetPromise(nil / every promise), GetPromise, SetResult(5, nil) / (2, Canceled) on every promise, the Await variants
@@ -154,6 +155,65 @@ Theorem c11_monitors_accept_model_bounded :
   sweep_from prefix_race 4 (hinit [0%N]) minit = true.
 Proof. exact monitors_accept_model_bounded. Qed.
 Print Assumptions c11_monitors_accept_model_bounded.
+
+(* ---------------- monitors and model: for ALL event lists, no bound ---------------- *)
+
+(* Clause 7 of the monitors ("a container awaiter with a live context is blocked at quiescence although its err / cancel
+   channel fired while a pending promise is current") is the recorded finding D20/D21: the code, and hence the model, does
+   NOT satisfy it (c11_container_errch_refuted, c11_monitors_clause7_refuted).  The theorem is therefore stated for the
+   monitors with that one clause filtered out:  mon_only keep m e o = let '(m', f) := mon m e o in (m', filter keep f),
+   not_clause7 (pid, clause) = negb (pid = 11 && clause = 7).
+   For EVERY configuration and EVERY list of harness events: on the observations the model itself produces (eager
+   schedule of Spec.hstep; the run stops at the first event the model does not accept) none of the clauses
+   1 2 3 4 5 6 8 9 of the property-11 monitors (nor any stress clause) is ever false. *)
+Theorem c11_model_satisfies_monitors : forall cfg evs,
+  monitor (mon_only not_clause7) 0 minit [] evs (run_obs hstep (hinit cfg) evs) = [].
+Proof. exact model_satisfies_monitors. Qed.
+Print Assumptions c11_model_satisfies_monitors.
+
+(* hence the checker (replay + those monitors) reports nothing on any history that the model accepts completely *)
+Theorem c11_model_run_check_clean : forall cfg evs,
+  length (run_obs hstep (hinit cfg) evs) = length evs ->
+  run_check hstep (mon_only not_clause7) (hinit cfg) minit evs (run_obs hstep (hinit cfg) evs) = [].
+Proof. exact model_run_check_clean. Qed.
+Print Assumptions c11_model_run_check_clean.
+
+(* the same about the UNFILTERED monitors / the extracted checker run_check_promise: whatever they report on the model's
+   own observations is clause 7 of property 11 *)
+Theorem c11_model_monitors_only_clause7 : forall cfg evs x,
+  In x (monitor mon 0 minit [] evs (run_obs hstep (hinit cfg) evs)) -> exists j, x = PropFalse 11 7 j.
+Proof. exact model_monitors_only_clause7. Qed.
+Print Assumptions c11_model_monitors_only_clause7.
+
+Theorem c11_model_run_check_only_clause7 : forall cfg evs x,
+  length (run_obs hstep (hinit cfg) evs) = length evs ->
+  In x (run_check_promise cfg evs (run_obs hstep (hinit cfg) evs)) -> exists j, x = PropFalse 11 7 j.
+Proof. exact model_run_check_only_clause7. Qed.
+Print Assumptions c11_model_run_check_only_clause7.
+
+(* ... and clause 7 is raised ONLY in the D20/D21 situation: after any accepted history (model state h, monitor state m
+   reached side by side, ProofsMon2.hrun), if the monitor step for the next accepted event reports anything, it is
+   (11, 7) and the model state is quiescent with a container awaiter blocked inside p.AwaitWithCancelCh, live context,
+   own channel fired, p current and pending (ProofsMon.d21).  So an implementation that behaves like the model and is
+   never driven into that situation raises no alarm at all. *)
+Theorem c11_clause7_only_in_d21 : forall cfg evs h m e h' o,
+  hrun (hinit cfg) minit evs = Some (h, m) -> hstep h e = Some (h', o) ->
+  forall p, In p (snd (mon m e o)) ->
+  p = (11%nat, 7%nat) /\
+  (quiescent (ms h') = true /\
+   exists a x k p ch q, nth_error (acts (ms h')) a = Some x /\ pc x = CProm k p ch /\ actx x = false /\
+                        ch_ready k (ach x) = true /\ cprom (ms h') = Some p /\
+                        nth_error (proms (ms h')) p = Some q /\ isdone q = false).
+Proof. exact clause7_only_in_d21. Qed.
+Print Assumptions c11_clause7_only_in_d21.
+
+(* the full statement "no clause at all is ever false" is REFUTED by the model (= by the code, finding D20/D21): on this
+   history, which the model accepts completely, the monitors run on the model's own observations report clause 7 *)
+Theorem c11_monitors_clause7_refuted :
+  length (run_obs hstep (hinit [0%N]) d21_history) = length d21_history /\
+  monitor mon 0 minit [] d21_history (run_obs hstep (hinit [0%N]) d21_history) = [PropFalse 11 7 5].
+Proof. exact monitors_clause7_refuted. Qed.
+Print Assumptions c11_monitors_clause7_refuted.
 
 (* ---------------- Examples (non-vacuity) ---------------- *)
 Example c11_example_canceled_result_returned :
